@@ -1553,3 +1553,11 @@ Theorem mstdp_delayed_modes_agree c k hx :
 Proof.
   intros Ht G. rewrite (mstdp_scaled (set_delayed c true) k G Ht), (mstdp_scaled (set_delayed c false) k G Ht). reflexivity.
 Qed.
+
+(* the run with per-step delays is the run of the theorems when the delay does not change *)
+Theorem run_k_const (N : Num) (c : config N) (k : nat) inps : forall ss,
+  run_k N c ss (map (fun i => (k, i)) inps) = run N c k ss inps.
+Proof.
+  induction inps as [|i tl IH]; intros ss; [reflexivity|].
+  cbn [map run_k run fst snd]. destruct (step N c k ss i) as [ss' out]. rewrite IH. reflexivity.
+Qed.
